@@ -22,7 +22,8 @@ ObsOK(o) ==
 \* the driver is between two calls: not inside RemoveConnByUfrag; if it waited, the mux is idle and looks as logged
 Ready == /\ l <= Len(Tr) /\ rmS = "idle"
          /\ J.w => Quiet /\ ~cc /\ ObsOK(J.pre)
-Ev(e) == Ready /\ J.ev = e /\ l' = l + 1 /\ UNCHANGED <<races, c2S>>
+Ev0(e) == Ready /\ J.ev = e /\ l' = l + 1 /\ UNCHANGED <<races, c2S>>
+Ev(e) == Ev0(e) /\ UNCHANGED rmTodo
 TInit == Init /\ l = 1 /\ cc = FALSE
 TReset == /\ l <= Len(Tr) /\ J.ev = "Reset" /\ l' = l + 1
           /\ beh' = [c \in Clients |-> IF c <= Len(J.beh) THEN J.beh[c] ELSE "silent"]
@@ -30,23 +31,23 @@ TReset == /\ l <= Len(Tr) /\ J.ev = "Reset" /\ l' = l + 1
           /\ sclosed' = [c \in Clients |-> FALSE] /\ rx' = [c \in Clients |-> <<>>]
           /\ hc' = [c \in Clients |-> "none"] /\ hcT' = [c \in Clients |-> Off] /\ hcP' = [c \in Clients |-> 0]
           /\ rd' = [c \in Clients |-> "none"] /\ rdK' = [c \in Clients |-> 0] /\ att' = [c \in Clients |-> 0]
-          /\ pcs' = [i \in Ids |-> NoPc] /\ npc' = 0 /\ map' = [u \in Ufrags |-> 0]
+          /\ pcs' = [i \in Ids |-> NoPc] /\ npc' = 0 /\ map' = [u \in MKeys |-> 0]
           /\ mu' = "free" /\ mclosed' = FALSE /\ lclosed' = FALSE /\ acc' = "run" /\ wg' = 1
           /\ wat' = [i \in Ids |-> "none"] /\ tim' = [i \in Ids |-> "none"] /\ closers' = [s \in Slots |-> Idle]
-          /\ rmS' = "idle" /\ clS' = "idle" /\ clTodo' = {} /\ c2S' = "idle"
+          /\ rmS' = "idle" /\ clS' = "idle" /\ clTodo' = {} /\ c2S' = "idle" /\ rmTodo' = {}
           /\ handles' = <<>> /\ delivered' = [i \in Ids |-> <<>>] /\ seenClosed' = [i \in Ids |-> FALSE]
           /\ stale' = FALSE /\ gets' = 0 /\ rms' = 0 /\ adv' = 0 /\ reps' = 0 /\ races' = 0 /\ cc' = FALSE
 TNext == \/ Internal /\ UNCHANGED <<l, races, cc>>
-         \/ cc /\ CloseLock /\ cc' = FALSE /\ UNCHANGED <<l, races, c2S>>
+         \/ cc /\ CloseLock /\ cc' = FALSE /\ UNCHANGED <<l, races, c2S, rmTodo>>
          \/ TReset
          \/ Ev("Dial") /\ UNCHANGED cc /\ Dial(J.c)
          \/ Ev("Send") /\ UNCHANGED cc /\ ClientSend(J.c) /\ sent'[J.c] = J.k
          \/ Ev("CClose") /\ UNCHANGED cc /\ ClientClose(J.c)
          \/ Ev("Get") /\ UNCHANGED cc /\ Get(J.u) /\ (J.ok <=> ~mclosed)
-         \/ Ev("Remove") /\ UNCHANGED cc /\ RemoveBegin(J.u)
+         \/ Ev0("Remove") /\ UNCHANGED cc /\ RemoveBegin(J.u)
          \/ Ev("Close") /\ clS = "idle" /\ ~cc /\ cc' = TRUE /\ UNCHANGED mvars
          \* a second Close call while the first is under way (or has not reached the lock yet)
-         \/ Ready /\ J.ev = "Close" /\ (cc \/ clS # "idle") /\ c2S = "idle" /\ c2S' = "want" /\ l' = l + 1 /\ UNCHANGED <<mvars, races, cc>>
+         \/ Ready /\ J.ev = "Close" /\ (cc \/ clS # "idle") /\ c2S = "idle" /\ c2S' = "want" /\ l' = l + 1 /\ UNCHANGED <<mvars, races, cc, rmTodo>>
          \/ Ev("Advance") /\ UNCHANGED cc /\ Advance
          \/ Ev("Reply") /\ UNCHANGED cc /\ Reply(handles[J.h], J.c) /\ reps' = J.r
                         /\ (J.ok <=> (J.c \in pcs[handles[J.h]].conns /\ ~sclosed[J.c] /\ cst[J.c] = "open"))
